@@ -1,8 +1,6 @@
 package main
 
 import (
-	"runtime"
-	"strconv"
 	"bytes"
 	"context"
 	"crypto/sha256"
@@ -11,6 +9,8 @@ import (
 	"os"
 	"os/exec"
 	"path/filepath"
+	"runtime"
+	"strconv"
 	"strings"
 	"sync"
 	"time"
@@ -19,16 +19,16 @@ import (
 // Obligation is one verification condition: Assumptions ==> Goal.
 type Obligation struct {
 	Retried bool
-	St      *Symtab // symbol table of the function the obligation was generated from (nil: the caller's)
-	Name   string   // e.g. A/searchNode4/ret#1/ensures#1
-	Func   string   // function it was generated from
-	Kind   string   // safety | requires | ensures | invariant | lemma | cover | ...
-	Pos    string   // source position
-	Assume []Term   // path condition + contract assumptions
-	Goal   Term     // to be proved
-	Cover  bool     // if true the query must be SAT (vacuity probe): Goal is ignored
-	Inputs []string // names of symbols worth printing from a model
-	Note   string
+	St      *Symtab  // symbol table of the function the obligation was generated from (nil: the caller's)
+	Name    string   // e.g. A/searchNode4/ret#1/ensures#1
+	Func    string   // function it was generated from
+	Kind    string   // safety | requires | ensures | invariant | lemma | cover | ...
+	Pos     string   // source position
+	Assume  []Term   // path condition + contract assumptions
+	Goal    Term     // to be proved
+	Cover   bool     // if true the query must be SAT (vacuity probe): Goal is ignored
+	Inputs  []string // names of symbols worth printing from a model
+	Note    string
 
 	// results
 	Result  string // unsat | sat | unknown | timeout | error
@@ -48,7 +48,7 @@ type SolverCfg struct {
 	Agree        bool          // thorough: run all solvers and require agreement
 	CacheDir     string
 	NoCache      bool
-	KeepDir      string // where to keep failed queries
+	KeepDir      string                   // where to keep failed queries
 	NoRetry      func(o *Obligation) bool // obligations whose failure is expected (known findings): no second attempt
 }
 
